@@ -423,6 +423,9 @@ class HistWorld(World):
                     op["i"] = others[int(rng.integers(len(others)))]
                 if rng.random() < 0.6:
                     op["name"] = ["fx", "fy"][int(rng.integers(2))]
+        elif name == "save_iter":
+            if rng.random() < 0.35:
+                op["user"] = True
         elif name == "setmesh":
             op["mesh"] = int(rng.integers(len(self.meshes)))
         elif name == "algo":
@@ -493,6 +496,7 @@ class HistWorld(World):
         if name == "save_iter":
             if self.type == "PhaseField" and not self.solved:
                 return "skip"
+            self._user_dict = bool(op.get("user"))
             return self._with_disk_fault(fault, self._act_save_iter, self._ver_save_iter)
 
         if name == "folder":
@@ -662,7 +666,18 @@ class HistWorld(World):
         self._extra_before_save = self._live_extra() if not self._solved_since_commit else None
         try:
             with self.ctx.sut():
-                sim.Save_Iter()
+                if getattr(self, "_user_dict", False):
+                    # the caller's own record, the same dict object at every call (info["time"] = t; simu.Save_Iter(info)),
+                    # rewritten by the caller afterwards: what an iteration stored must not follow it
+                    info = self.__dict__.setdefault("_info", {})
+                    info["time"] = float(len(self.snaps))
+                    info["label"] = f"step {len(self.snaps)}"
+                    sim.Save_Iter(info)
+                    info["time"] = -1.0
+                    info["label"] = "rewritten by the caller"
+                    self.ctx.probe("save_iter_with_the_callers_dict")
+                else:
+                    sim.Save_Iter()
         except SutError as e:
             raise Violation("save-iter-raises", f"Save_Iter raised {e}", e.site)
 
